@@ -2,6 +2,7 @@ package props
 
 import (
 	"fmt"
+	"sort"
 	"strings"
 
 	"voicheck/econst"
@@ -98,6 +99,42 @@ func c07Specs() []*edt.Spec {
 		}
 	}
 	return []*edt.Spec{
+		func() *edt.Spec {
+			// checkBasepoint panics exactly when the CURRENT bytes of the exported Basepoint slice differ from
+			// {9, 0, ..., 0}: the fixed-base shortcut is only taken for the generator (no identity shortcut:
+			// the slice aliases the package's array precisely when a caller has scribbled over it in place)
+			var keys []string
+			for i := 0; i < 32; i++ {
+				keys = append(keys, fmt.Sprintf("[%d]", i))
+			}
+			sort.Strings(keys)
+			var parts []string
+			for _, k := range keys {
+				v := "0"
+				if k == "[0]" {
+					v = "9"
+				}
+				parts = append(parts, k+"=("+v+")")
+			}
+			atom := "(subtle.ConstantTimeCompare(@primitives/x25519.Basepoint, agg(" + strings.Join(parts, ", ") + ")) == 1)"
+			return &edt.Spec{
+				Pkg: "primitives/x25519", Func: "checkBasepoint", MinPaths: 2,
+				Vars: map[string]string{atom: "isNine"},
+				Classify: func(p *edt.Path, out string, e *edt.Env) string {
+					switch {
+					case p.Panic != nil:
+						return "panic"
+					case out == "":
+						return "ok"
+					}
+					return ""
+				},
+				Formula: map[string]func(e *edt.Env) edt.Tri{
+					"ok":    func(e *edt.Env) edt.Tri { return e.V("isNine") },
+					"panic": func(e *edt.Env) edt.Tri { return edt.Not(e.V("isNine")) },
+				},
+			}
+		}(),
 		{
 			// the checked entry point: error exactly for a wrong length or an all-zero result of the variable-base path
 			Pkg: "primitives/x25519", Func: "x25519", Opaque: []string{"x25519.ScalarMult", "x25519.ScalarBaseMult", "x25519.checkBasepoint"}, MinPaths: 5,
